@@ -202,6 +202,9 @@ def evaluate(f, *args, timeout=20):
 
 def compare(t, fname, kinds, base, other, p, case):
     """base: result on A; other: result on A[p,p]; expectation other == permute(base)."""
+    if ('exc', 'CaseTimeout') in (base, other):     # the call budget ran out: never "both raise the same exception"
+        t.viol(fname, 'does_not_terminate', case, observed='no result within the call budget (20 s; 900 s for 260 nodes)')
+        return
     if base[0] != other[0] or (base[0] == 'exc' and base[1] != other[1]):
         t.viol(fname, 'equivariance:outcome', case, observed=other[1] if other[0] == 'exc' else 'returns',
                expected=base[1] if base[0] == 'exc' else 'returns')
